@@ -68,18 +68,12 @@ instance : Inhabited St :=
 /-- The version of the code the working tree contains (flags regenerated from the source on every run). -/
 def fx : Fixes :=
   ⟨Gen.XTermFacts.scrollGuard, Gen.XTermFacts.eraseKeepsCount, Gen.XTermFacts.printnGuard,
-   Gen.TermBuf.term_resume_resends_pen⟩
+   Gen.TermBuf.term_resume_resends_pen, Gen.XTermFacts.scrollCellGuard⟩
 
-/-- The drawing requests of the working tree: `XTermDrv.request`, and - when the tree contains the repair
-    `fixes/C09_scroll_one_cell.patch` (`Gen.XTermFacts.scrollCellGuard`, read from the source) - the refusal of the
-    one-line ICH/DCH path whose right margin would be column 1 (`if(right < term_cols && right < 2) return false;`). -/
-def requestT (d : Drv) (req : Request) : Bool × List UInt8 :=
-  match req with
-  | .scroll r dn rt =>
-    if Gen.XTermFacts.scrollCellGuard ∧ ¬ (dn = 0 ∧ rt = 0) ∧
-       ((d.caps.slrm ∧ r.lines = 1) ∨ r.right = d.cols) ∧ dn = 0 ∧ r.right < d.cols ∧ r.right < 2 then (false, [])
-    else request fx d req
-  | _ => request fx d req
+/-- The drawing requests of the working tree: `XTermDrv.request` for the version of the code the tree contains (the
+    repair `fixes/C09_scroll_one_cell.patch` - the refusal of the one-line ICH/DCH path whose right margin would be
+    column 1, `if(right < term_cols && right < 2) return false;` - is part of the proved model: `fx.scrollCellGuard`). -/
+def requestT (d : Drv) (req : Request) : Bool × List UInt8 := request fx d req
 
 /-- Interpret the implementation's bytes on the reference terminal of this history: as `VT.run`, except that a
     terminal whose mode 69 is not recognised or permanent keeps its DECLRMM state (and, if that is "set", its
